@@ -218,7 +218,70 @@ enum Verdict {
     /// the runtime thread sits in a blocking write(2) on the child's stdin while the helper's main
     /// thread sits in a blocking write(2) on its stdout/stderr: a cycle, nobody can move
     BlockingWriteCycle(String),
+    /// a helper thread sleeps in write(2) on its stdout/stderr pipe (pipe full) while the parent's
+    /// runtime thread sleeps in its driver wait with nothing to do, and no byte moved for the whole
+    /// observation window: the parent is not draining that pipe and nothing will ever wake either side
+    NotDrained { stream: &'static str, detail: String },
     Watchdog,
+}
+
+/// set once a dead-lock verdict was reached in this process: later cases (shrinking steps of the
+/// same failure) use the short observation window
+static DEADLOCK_SEEN: std::sync::atomic::AtomicBool = std::sync::atomic::AtomicBool::new(false);
+
+fn deadlock_window() -> Duration {
+    let full = std::env::var("VERIF_C20_DEADLOCK_WINDOW").ok().and_then(|s| s.parse().ok()).unwrap_or(15);
+    if DEADLOCK_SEEN.load(Ordering::Relaxed) {
+        Duration::from_secs(full.min(4))
+    } else {
+        Duration::from_secs(full)
+    }
+}
+
+/// (state letter, syscall nr, first argument) of one thread
+fn thread_state(task_dir: &str) -> Option<(char, i64, i64)> {
+    let (nr, a0) = syscall_of(&format!("{task_dir}/syscall"))?;
+    let stat = std::fs::read_to_string(format!("{task_dir}/stat")).ok()?;
+    // "pid (comm) S ..." — comm may contain spaces: take the field after the last ')'
+    let st = stat.rsplit_once(')')?.1.trim_start().chars().next()?;
+    Some((st, nr, a0))
+}
+
+/// (rchar, wchar) of a process or thread
+fn io_counters(path: &str) -> Option<(u64, u64)> {
+    let t = std::fs::read_to_string(path).ok()?;
+    let get = |k: &str| t.lines().find_map(|l| l.strip_prefix(k)).and_then(|v| v.trim().parse::<u64>().ok());
+    Some((get("rchar:")?, get("wchar:")?))
+}
+
+const DRIVER_WAITS: [i64; 6] = [libc::SYS_io_uring_enter, libc::SYS_epoll_wait, libc::SYS_epoll_pwait, 441 /* epoll_pwait2 */, libc::SYS_ppoll, libc::SYS_poll];
+
+/// Which of the helper's fds 1/2 have a thread sleeping in write(2) on them, if the parent's runtime
+/// thread sleeps in its driver wait at the same time; plus the byte counters of both sides.
+#[allow(clippy::type_complexity)]
+fn not_drained_state(tid: i64, pid: u32) -> Option<(Vec<i64>, (Option<(u64, u64)>, Option<(u64, u64)>), String)> {
+    let (st, nr, _) = thread_state(&format!("/proc/self/task/{tid}"))?;
+    if st != 'S' || !DRIVER_WAITS.contains(&nr) {
+        return None;
+    }
+    let mut fds = vec![];
+    for e in std::fs::read_dir(format!("/proc/{pid}/task")).ok()?.flatten() {
+        if let Some((cst, cnr, a0)) = thread_state(&e.path().to_string_lossy()) {
+            if cst == 'S' && cnr == libc::SYS_write && (a0 == 1 || a0 == 2) && !fds.contains(&a0) {
+                // it must be a pipe
+                let link = std::fs::read_link(format!("/proc/{pid}/fd/{a0}")).map(|l| l.to_string_lossy().into_owned()).unwrap_or_default();
+                if link.starts_with("pipe:") {
+                    fds.push(a0);
+                }
+            }
+        }
+    }
+    if fds.is_empty() {
+        return None;
+    }
+    fds.sort_unstable();
+    let io = (io_counters(&format!("/proc/{pid}/io")), io_counters(&format!("/proc/self/task/{tid}/io")));
+    Some((fds, io, format!("runtime thread {tid} sleeps in syscall {nr} (driver wait)")))
 }
 
 /// An OS thread outside the runtime: compio timers cannot fire while the runtime thread itself is
@@ -254,6 +317,9 @@ impl Guard {
             .spawn(move || {
                 let t0 = Instant::now();
                 let mut streak = 0;
+                let window = deadlock_window();
+                #[allow(clippy::type_complexity)]
+                let mut stable: Option<(Instant, Vec<i64>, (Option<(u64, u64)>, Option<(u64, u64)>), u32)> = None;
                 while !s2.load(Ordering::Relaxed) {
                     std::thread::park_timeout(Duration::from_millis(100));
                     if s2.load(Ordering::Relaxed) {
@@ -277,6 +343,43 @@ impl Guard {
                         )));
                         unsafe { libc::kill(pid as i32, libc::SIGKILL) };
                         return;
+                    }
+                    // the general "pipe not drained" dead-lock: same state and not one byte moved on either
+                    // side on every 100 ms sample of the whole window
+                    match (not_drained_state(tid, pid), &mut stable) {
+                        (Some((fds, io, _)), Some((_, f0, io0, n))) if *f0 == fds && *io0 == io => *n += 1,
+                        (Some((fds, io, _)), st) => *st = Some((Instant::now(), fds, io, 1)),
+                        (None, st) => *st = None,
+                    }
+                    if let Some((since, fds, io, n)) = &stable {
+                        if since.elapsed() >= window && *n >= 20 {
+                            let stream = match fds.as_slice() {
+                                [1] => "stdout",
+                                [2] => "stderr",
+                                _ => "stdout+stderr",
+                            };
+                            // who holds the read end of that pipe?  (the helper's copy was closed by exec)
+                            let mut holders = String::new();
+                            for fd in fds {
+                                let link = std::fs::read_link(format!("/proc/{pid}/fd/{fd}")).map(|l| l.to_string_lossy().into_owned()).unwrap_or_default();
+                                let mine: Vec<String> = std::fs::read_dir("/proc/self/fd")
+                                    .map(|d| d.flatten().filter(|e| std::fs::read_link(e.path()).map(|l| l.to_string_lossy() == link).unwrap_or(false)).map(|e| e.file_name().to_string_lossy().into_owned()).collect())
+                                    .unwrap_or_default();
+                                holders.push_str(&format!(" helper fd {fd} = {link}, read end held by the parent as fd {mine:?};"));
+                            }
+                            DEADLOCK_SEEN.store(true, Ordering::Relaxed);
+                            *v2.lock().unwrap() = Some(Verdict::NotDrained {
+                                stream,
+                                detail: format!(
+                                    "for {:.1}s ({n} samples) a helper thread slept in write(2) on a full pipe while the parent's runtime thread {tid} slept in its driver wait and no byte moved (helper rchar/wchar {:?}, runtime thread {:?});{holders} nobody reads that pipe, nothing can wake either side",
+                                    since.elapsed().as_secs_f64(),
+                                    io.0,
+                                    io.1
+                                ),
+                            });
+                            unsafe { libc::kill(pid as i32, libc::SIGKILL) };
+                            return;
+                        }
                     }
                     if t0.elapsed() > limit {
                         *v2.lock().unwrap() = Some(Verdict::Watchdog);
@@ -494,6 +597,10 @@ pub fn run_case(case: &ProcCase, known_blocking_write: bool) -> Outcome {
                 SIG_BLOCKING_WRITE,
                 format!("{d}; driver {:?}, stdin payload {:?} bytes in writes of {wchunk}, stdout {out_len}, stderr {err_len}: nobody can make progress", case.driver, in_len),
             ),
+            Verdict::NotDrained { stream, detail } => Outcome::violation(
+                format!("C20/stdio/not-drained-deadlock/{stream}/{}", if case.driver == Drv::Poll { "poll" } else { "io_uring" }),
+                format!("{detail}; order {:?}, stdout {out_len} bytes, stderr {err_len} bytes, stdin {:?}", case.order, in_len),
+            ),
             Verdict::Watchdog => Outcome::inconclusive(format!("external watchdog {}s", watchdog().as_secs() + 10)),
         };
     }
@@ -597,6 +704,12 @@ pub fn run_case(case: &ProcCase, known_blocking_write: bool) -> Outcome {
     if big_out && big_err {
         labels.push("stdout+stderr>pipe-capacity".into());
     }
+    if case.order == Order::WaitWithOutput && big_err {
+        labels.push("wait_with_output+stderr>pipe-capacity".into());
+    }
+    if case.order == Order::WaitWithOutput && big_out {
+        labels.push("wait_with_output+stdout>pipe-capacity".into());
+    }
     if matches!(case.out_reader, Reader::Managed { .. }) && case.order != Order::WaitWithOutput {
         labels.push("stdout:read_managed".into());
     }
@@ -681,7 +794,7 @@ fn main() {
     p.thorough_cases = 12_000;
     p.threads = 1;
     p.replay_repeats = 5;
-    p.max_shrink_iters = 200;
+    p.max_shrink_iters = 40;
     p.assumptions = vec![
         "Linux default pipe capacity 64 KiB",
         "stdin/stdout/stderr handles are taken out of the Child before wait() (its documented use); wait_with_output keeps stdout/stderr inside",
@@ -735,6 +848,22 @@ fn main() {
                 order: Order::WaitWithOutput,
                 start_delay: 0,
                 exit_delay: 0,
+                strict: true,
+            },
+        ),
+        (
+            "wait_with_output-stderr-3x-capacity-small-stdout",
+            ProcCase {
+                driver: Drv::IoUring,
+                stdout: Stdout::Produce { len: Size::Small(2000) },
+                stderr: Size::Large(40000),
+                child_chunk: 9000,
+                out_reader: Reader::Plain { chunk: 0 },
+                err_reader: Reader::Plain { chunk: 0 },
+                exit: Exit::Code(7),
+                order: Order::WaitWithOutput,
+                start_delay: 0,
+                exit_delay: 3,
                 strict: true,
             },
         ),
